@@ -177,14 +177,15 @@ class FortranCodegen(Stringifier):
         if access_spec:
             # Handle the spec in parts to deal with access specifiers
             import_part, implicit_part, decl_part = o.spec_parts
-            spec = ''
+            spec_parts = []
             if import_part:
-                spec += self.visit(import_part, **kwargs) + '\n'
+                spec_parts += [self.visit(import_part, **kwargs)]
             if implicit_part:
-                spec += self.visit(implicit_part, **kwargs) + '\n'
-            spec += self.join_lines(*access_spec) + '\n'
+                spec_parts += [self.visit(implicit_part, **kwargs)]
+            spec_parts += access_spec
             if decl_part:
-                spec += self.visit(decl_part, **kwargs) + '\n'
+                spec_parts += [self.visit(decl_part, **kwargs)]
+            spec = self.join_lines(*spec_parts)
         else:
             spec = self.visit(o.spec, **kwargs)
         self.depth -= self.style.module_spec_indent
